@@ -344,12 +344,33 @@ class CallMixin:
             if cell.native is not None:
                 cell.native.setattr(self, obj, name, v)
                 return
-            cell.fields[name] = v
+            cell.fields[name] = self._typed_empty_for_field(cell, name, v)
             return
         if isinstance(obj, VOpaque):
             self.registry.opaque_setattr(self, obj, name, v)
             return
         raise Unsupported(f"attribute store on {obj!r}")
+
+    def _typed_empty_for_field(self, cell, name, v):
+        """`self.f = {}` / `[]` on a field whose kind is declared: the empty container of that
+        kind (an untyped empty literal cannot take symbolic keys later)."""
+        d = self.deref(v)
+        cls = getattr(cell, "cls", None)
+        if cls is None or not ((isinstance(d, VConstDict) and not d.items) or (isinstance(d, VList) and d.items == [])):
+            return v
+        kind = self.registry.field_kind(cls, name) if isinstance(cls, ClassInfo) else None
+        if kind is None or not (kind.startswith("dict[") or kind.startswith("list[")):
+            return v
+        return self.new_container(self.empty_of_kind(kind))
+
+    def empty_of_kind(self, kind):
+        tmpl = vals.fresh(kind, self.path.name("empty"))
+        if isinstance(tmpl, VMap):
+            ks = tmpl.ksort()
+            return VMap(tmpl.key, z3.K(ks, z3.BoolVal(False)), vals.dummy_like(tmpl.val))
+        if isinstance(tmpl, VList):
+            return VList(z3.IntVal(0), vals.dummy_like(tmpl.elem))
+        raise Unsupported(f"empty value of kind {kind}")
 
     # ------------------------------------------------------------------ globals
     def global_lookup(self, name, module) -> V:
